@@ -151,7 +151,19 @@ fn start_node(me: u16, peers: &[u16], base: &Utf8PathBuf, cfg: &Cfg, to_net: Unb
     let transport = SimTransport { me, to_net, from_net };
     let mut map: HashMap<Vec<EntityID>, Box<dyn PDUTransport + Send>> = HashMap::new();
     map.insert(peers.iter().map(|p| vid(*p)).collect(), Box::new(transport));
-    let mut daemon = Daemon::new(vid(me), vid(1), map, filestore, HashMap::new(), entity_config(cfg), prim_rx, ind_tx);
+    // the configuration of every peer is given explicitly; the default configuration (used for entities that are
+    // not listed) has timers of ten minutes, so a transaction that runs with it cannot meet the bounds of the scenario
+    let mut per_entity: HashMap<EntityID, EntityConfig> = HashMap::new();
+    for e in [1u16, 2, 3, 77] {
+        if e != me {
+            per_entity.insert(vid(e), entity_config(cfg));
+        }
+    }
+    let mut fallback = entity_config(cfg);
+    fallback.inactivity_timeout = 600;
+    fallback.ack_timeout = 600;
+    fallback.nak_timeout = 600;
+    let mut daemon = Daemon::new(vid(me), vid(1), map, filestore, per_entity, fallback, prim_rx, ind_tx);
     let handle = tokio::task::spawn(async move {
         let _ = daemon.manage_transactions().await;
     });
@@ -323,6 +335,14 @@ async fn run_scenario(out: &mut dyn Write, viol: &mut u64, base: &Utf8PathBuf, s
         nodes[&j.from].prim_tx.send(UserPrimitive::Put(req, tx)).await.unwrap();
         j.id = rx.await.ok();
         if let Some(id) = j.id {
+            if matches!(j.cmd, JobCmd::CancelAtPut | JobCmd::SuspendAtPut { .. }) {
+                // a user polling the status first: the transaction's command queue (10 entries at a sender) is busy
+                // when the command arrives
+                for _ in 0..10 {
+                    let (rtx, _rrx) = oneshot::channel();
+                    let _ = nodes[&j.from].prim_tx.send(UserPrimitive::Report(id, rtx)).await;
+                }
+            }
             match &j.cmd {
                 JobCmd::CancelAtPut => {
                     let _ = nodes[&j.from].prim_tx.send(UserPrimitive::Cancel(id)).await;
@@ -343,6 +363,10 @@ async fn run_scenario(out: &mut dyn Write, viol: &mut u64, base: &Utf8PathBuf, s
         match j.cmd.clone() {
             JobCmd::SuspendAtPut { resume_ms } => cmd_tasks.push(tokio::task::spawn(async move {
                 tokio::time::sleep(Duration::from_millis(resume_ms)).await;
+                for _ in 0..10 {
+                    let (rtx, _rrx) = oneshot::channel();
+                    let _ = tx.send(UserPrimitive::Report(id, rtx)).await;
+                }
                 let _ = tx.send(UserPrimitive::Resume(id)).await;
             })),
             JobCmd::CancelAtRecv(at) => {
@@ -546,6 +570,13 @@ async fn run_scenario(out: &mut dyn Write, viol: &mut u64, base: &Utf8PathBuf, s
                 if !during.is_empty() {
                     *viol += 1;
                     oracle(out, "C19", "daemon_suspended_silent", &format!("transaction {} was suspended at its start and resumed after {} ms but transmitted at {:?} ms || {}", idr, resume_ms, during.iter().map(|x| x.0).collect::<Vec<_>>(), ctx()));
+                }
+                // ... and cannot end (its ACK of the Finished PDU cannot go out) before the Resume
+                if let Some(t) = end_ms.get(&format!("{}@{}", idr, j.from)) {
+                    if (*t as u64) + 20 < *resume_ms {
+                        *viol += 1;
+                        oracle(out, "C19", "daemon_suspended_silent", &format!("transaction {} was suspended at its start and resumed after {} ms but had ended at its sender after {} ms || {}", idr, resume_ms, t, ctx()));
+                    }
                 }
                 // (that it completes after the Resume is part of others_unaffected below)
             }
@@ -809,13 +840,13 @@ pub fn run(opts: &Opts, out: &mut dyn Write) {
         let mut strays = vec![];
         let fin = |c: Condition, d: DeliveryCode| PDUPayload::Directive(Operations::Finished(Finished { condition: c, delivery_code: d, file_status: FileStatusCode::Retained, filestore_response: vec![], fault_location: None }));
         for _ in 0..(2 + rng.below(5)) {
-            let kind = rng.below(12);
-            let at = if kind >= 9 { rng.below(3000) } else if kind >= 4 { rng.below(700) } else { rng.below(3000) };
+            let kind = rng.below(16);
+            let at = if kind >= 15 { rng.below(3000) } else if kind >= 12 { rng.below(700) } else if kind >= 9 { rng.below(3000) } else if kind >= 4 { rng.below(700) } else { rng.below(3000) };
             let job = rng.below(njobs as u64) as usize;
             // colliding strays go where the transaction they collide with lives
             let to = match kind {
                 4..=6 | 9..=11 => jobs[job].from,
-                7 | 8 => jobs[job].to,
+                7 | 8 | 12..=14 => jobs[job].to,
                 _ => *rng.pick(&[1u16, 2]),
             };
             let foreign = *rng.pick(&[3u16, 77]);
@@ -838,7 +869,15 @@ pub fn run(opts: &Opts, out: &mut dyn Write) {
                 // while the transaction runs, just after it ended, or long after
                 9 => (mk_pdu(Direction::ToReceiver, jobs[job].mode, to, 0, 3 - to, PDUPayload::FileData(FileDataPDU::Unsegmented(UnsegmentedFileData { offset: 0, file_data: vec![0xAB; 5] }))), Some(job)),
                 10 => (mk_pdu(Direction::ToReceiver, jobs[job].mode, to, 0, 3 - to, PDUPayload::Directive(Operations::EoF(EndOfFile { condition: Condition::NoError, checksum: 0, file_size: 0, fault_location: None }))), Some(job)),
-                _ => (mk_pdu(Direction::ToReceiver, jobs[job].mode, to, 0, 3 - to, PDUPayload::Directive(Operations::Ack(PositiveAcknowledgePDU { directive: PDUDirective::Finished, directive_subtype_code: ACKSubDirective::Finished, condition: Condition::NoError, transaction_status: TransactionStatus::Terminated }))), Some(job)),
+                11 => (mk_pdu(Direction::ToReceiver, jobs[job].mode, to, 0, 3 - to, PDUPayload::Directive(Operations::Ack(PositiveAcknowledgePDU { directive: PDUDirective::Finished, directive_subtype_code: ACKSubDirective::Finished, condition: Condition::NoError, transaction_status: TransactionStatus::Terminated }))), Some(job)),
+                // a PDU of the receiving side of a live transaction reflected back to the receiving daemon (source = the sender,
+                // direction towards the sender): a Finished PDU, an ACK(EOF), a keep-alive - nothing a receive transaction expects
+                12 => (mk_pdu(Direction::ToSender, jobs[job].mode, 3 - to, 0, to, fin(Condition::NoError, DeliveryCode::Complete)), Some(job)),
+                13 => (mk_pdu(Direction::ToSender, jobs[job].mode, 3 - to, 0, to, PDUPayload::Directive(Operations::Ack(PositiveAcknowledgePDU { directive: PDUDirective::EoF, directive_subtype_code: ACKSubDirective::Other, condition: Condition::NoError, transaction_status: TransactionStatus::Active }))), Some(job)),
+                14 => (mk_pdu(Direction::ToSender, jobs[job].mode, 3 - to, 0, to, PDUPayload::Directive(Operations::KeepAlive(KeepAlivePDU { progress: 3 }))), Some(job)),
+                // a response of a foreign entity's transaction addressed to the peer, misdelivered here: no such transaction, a
+                // transport for the addressee exists
+                _ => (mk_pdu(Direction::ToSender, TransmissionMode::Acknowledged, foreign, 600 + rng.below(50) as u16, 3 - to, fin(Condition::NoError, DeliveryCode::Complete)), None),
             };
             strays.push((at, to, p, seq_of));
         }
